@@ -39,6 +39,7 @@ type simGen struct {
 	isCoro     map[int]bool // function indexes used as coroutine bodies
 	vararg     bool
 	nparams    int
+	stormLeft  int
 	blockLabel []string        // label of each enclosing block ("" if none), innermost last
 	labelUsed  map[string]bool // a goto to this label has been generated
 }
@@ -370,6 +371,10 @@ func (g *simGen) stmts() []*stmt {
 		out = append(out, &stmt{k: sIf, exps: []*expr{{k: eLt, args: []*expr{{k: eGlobal, name: kname}, cst(intv(int64(2 + g.t.Choose(2))))}}}, body: []*stmt{{k: sGoto, name: lbl}}})
 		return out
 	case 14:
+		if g.o.mode == "err" && g.stormLeft > 0 && g.t.Chance(1, 3) {
+			g.stormLeft--
+			return []*stmt{{k: sStorm, n: int64(600 + g.t.Choose(700))}}
+		}
 		name := fmt.Sprintf("G%d", 1+g.t.Choose(3))
 		return []*stmt{{k: sAssignG, name: name, exps: []*expr{g.simple()}}}
 	default:
@@ -390,7 +395,7 @@ func (g *simGen) callExprNoSelect() *expr {
 }
 
 func genSim(t *core.Tape, o simOpts) *program {
-	g := &simGen{t: t, o: o, isCoro: map[int]bool{}, labelUsed: map[string]bool{}}
+	g := &simGen{t: t, o: o, isCoro: map[int]bool{}, labelUsed: map[string]bool{}, stormLeft: 2}
 	g.nfun = 2 + t.Choose(4)
 	if o.coro {
 		g.nco = 1 + t.Choose(3)
